@@ -51,6 +51,7 @@ type c09Scenario struct {
 	RetryDur          time.Duration
 	PreAlloc          int
 	KeepQueueOpen     bool
+	Sibling           bool
 	Submitters        [][]c09Sub
 
 	h            *Hist
@@ -110,6 +111,7 @@ func genC09(t *simrt.Tape, tier string) Scenario {
 		sc.PreAlloc = 1 + t.Choose(sc.Max+1)
 	}
 	sc.KeepQueueOpen = t.Bool(1, 3)
+	sc.Sibling = t.Bool(1, 4)
 	maxSub, maxJobs := 2, 6
 	if tier == "thorough" {
 		maxSub, maxJobs = 3, 12
@@ -176,6 +178,19 @@ func (sc *c09Scenario) Run(s *simrt.Sim) {
 			pool.SetIsJobQueueClosedWhenClose(false)
 		}
 	})
+	if sc.Sibling {
+		// a second, unrelated pool (also created with nil settings) configured very differently: what
+		// is configured on one pool must not leak into the other
+		s.NoPreempt(func() {
+			q2 := fpgo.NewBufferedChannelQueue[func()](2, 10, 1)
+			sib := worker.NewDefaultWorkerPool(q2, nil)
+			sib.SetPanicHandler(func(v interface{}) {
+				sc.handler = append(sc.handler, c09Handled{at: s.Stamp(), val: "SIBLING-HANDLER:" + fmt.Sprint(v)})
+			})
+			sib.SetWorkerSizeMaximum(50).SetWorkerSizeStandBy(2).SetWorkerBatchSize(1).SetSpawnWorkerDuration(3 * sc.Unit).
+				SetWorkerExpiryDuration(700 * sc.Unit).SetWorkerJamDuration(9 * sc.Unit).SetScheduleRetryInterval(2 * sc.Unit)
+		})
+	}
 	if sc.PreAlloc > 0 {
 		pool.PreAllocWorkerSize(sc.PreAlloc)
 	}
@@ -417,7 +432,7 @@ func (sc *c09Scenario) Check(res *simrt.Result) []Violation {
 	}
 	for v, n := range got {
 		if want[v] == 0 {
-			add("panic-handler", "foreign-panic:"+normPanic(v), fmt.Sprintf("the pool's panic handler was invoked with %q, which is no job's own panic", v))
+			add("panic-handler", "foreign-panic:"+reNum.ReplaceAllString(normPanic(v), "N"), fmt.Sprintf("the pool's panic handler was invoked with %q, which is no job's own panic", v))
 		} else if n > want[v] {
 			add("panic-handler", "reported-twice", fmt.Sprintf("panic %q reported %d times", v, n))
 		}
